@@ -5,8 +5,8 @@ VERIF="$(cd "$(dirname "$0")/.." && pwd)"; cd "$VERIF"
 IDS="${*:-C01 C02 C03 C04 C05 C06 C07 C08 C09 C10 C11 C12 C13 C14 C15 C16 C17 C18 C19 C20}"
 for c in $IDS; do
   s=$(date +%s.%N)
-  bin/check $c $TIER > /tmp/runall_$c.log 2>&1; rc=$?
+  bin/check $c $TIER > /tmp/runall_${VERIF_SEED:-1}_$$_$c.log 2>&1; rc=$?
   e=$(date +%s.%N)
-  printf "%s rc=%d %6.1fs  %s\n" $c $rc $(echo "$e - $s" | bc) "$(grep -E "^$c $TIER" /tmp/runall_$c.log | cut -c1-160)"
-  grep -E "^VIOLATION|^HARNESS" /tmp/runall_$c.log | head -2 | cut -c1-200
+  printf "%s rc=%d %6.1fs  %s\n" $c $rc $(echo "$e - $s" | bc) "$(grep -E "^$c $TIER" /tmp/runall_${VERIF_SEED:-1}_$$_$c.log | cut -c1-160)"
+  grep -E "^VIOLATION|^HARNESS" /tmp/runall_${VERIF_SEED:-1}_$$_$c.log | head -2 | cut -c1-200
 done
